@@ -56,6 +56,18 @@ func (t *Transformer) transformElements(elements []WirePattern, pkg *types.Packa
 	// First pass: collect all bound implementation types
 	// These are the types for which wire.Bind creates an implicit provider
 	boundTypes := t.collectBoundTypes(elements)
+	// Inline nested sets are flattened into their parent, so bindings of the
+	// parent also apply to the providers listed inside them
+	maps.Copy(boundTypes, t.inheritedBoundTypes)
+	outerInherited := t.inheritedBoundTypes
+	t.inheritedBoundTypes = boundTypes
+	defer func() { t.inheritedBoundTypes = outerInherited }()
+
+	// The provider that wire.Bind refers to is the provider of the implementation
+	// type listed in the same set, whatever its name
+	outerBoundProviders := t.boundProviders
+	t.boundProviders = t.collectBoundProviders(elements, boundTypes)
+	defer func() { t.boundProviders = outerBoundProviders }()
 
 	// Merge FieldsOf patterns with the same struct type
 	mergedFieldsOf := t.mergeFieldsOf(elements)
@@ -127,6 +139,35 @@ func (t *Transformer) collectBoundTypes(elements []WirePattern) map[string]bool 
 		}
 	}
 	return boundTypes
+}
+
+// collectBoundProviders maps bound implementation types to the provider function in
+// these elements (including inline nested sets) that returns them.
+func (t *Transformer) collectBoundProviders(elements []WirePattern, boundTypes map[string]bool) map[string]*types.Func {
+	result := make(map[string]*types.Func)
+	for _, elem := range elements {
+		switch we := elem.(type) {
+		case *WireProviderFunc:
+			if we.Func == nil || !t.isProviderBound(we, boundTypes) {
+				continue
+			}
+			sig, ok := we.Func.Type().(*types.Signature)
+			if !ok || sig.Results().Len() == 0 {
+				continue
+			}
+			key := sig.Results().At(0).Type().String()
+			if _, exists := result[key]; !exists {
+				result[key] = we.Func
+			}
+		case *WireNewSet:
+			for key, fn := range t.collectBoundProviders(we.Elements, boundTypes) {
+				if _, exists := result[key]; !exists {
+					result[key] = fn
+				}
+			}
+		}
+	}
+	return result
 }
 
 // isProviderBound checks if a provider function's output type is bound via wire.Bind.
